@@ -19,10 +19,10 @@ def run(tier, seed):
 
     return common.run_enum(PID, tier, seed, "MC_Content", "content",
         ["Content_q.cfg", "Content_q2.cfg", "Content_q3.cfg"] if q else ["Content_t.cfg", "Content_q2.cfg"],
-        [("Content_w_td_uses_x.cfg", "td_uses_x"), ("Content_w_sh_dropped.cfg", "sh_dropped"), ("Content_w_ri_without_slash.cfg", "ri_without_slash"),
+        [("Content_w_td_uses_x.cfg", "td_uses_x"), ("Content_w_td_ignores_sign.cfg", "td_ignores_sign"), ("Content_w_sh_dropped.cfg", "sh_dropped"), ("Content_w_ri_without_slash.cfg", "ri_without_slash"),
          ("Content_w_close_moves_current.cfg", "close_moves_current")],
         actions=["Extend", "Start", "Serialize", "Parse"],
-        rule="(1) every operation sequence of length <= 3 (quick) / <= 4 (thorough) over the 24 merge-relevant operations, <= 4 over the 10 operations that read or move the current point, and <= 2 over all 61 operation variants, "
+        rule="(1) every operation sequence of length <= 3 (quick) / <= 4 (thorough) over the 25 merge-relevant operations, <= 4 over the 10 operations that read or move the current point, and <= 2 over all 61 operation variants, "
              "each at several numeric scales (1, 1e-3, 1e4, 3e9, 1e-7: boundary reals) -> serialize_ops -> parse_ops -> structural equality (integers = reals of equal value); "
              "(2) every row of the operator table (66 of the 73 operators of Table A.1; BX EX d0 d1 BI ID EI have no operation in the library's alphabet) printed with "
              "generated operands in several conformant spellings, followed by another operator (operand leak), compared with the denoted operations; "
